@@ -1,9 +1,100 @@
 import DspVerif.Driver.Proto
-/-! driver handlers for C18 (stub: no correspondence cases handled yet) -/
+import DspVerif.Model.Fft
+import DspVerif.Model.Detect
+/-! driver handlers for C18: `delayseq`, `peakloc`, `finddelay`, `gccphat`, `PreambleDetector` models at `Float`.
+
+The transform parameters of the models are instantiated with the C01 model of the library's own plan family
+(`Model/Fft.lean`: `fftR` / `fftC` select the plan exactly as `create_rfft_plan` / `create_fft_plan` do, `ifftWith` is
+`IfftPlan::solve`), so the correlation arrays agree with the library's to rounding noise of the same algorithm. -/
 namespace Dsp.Driver
-open Dsp.Proto
+open Dsp.Proto Dsp.Detect
+
+/-- the literals of the small FFT kernels as written in the source (regenerated) -/
+def lits18 : Fft.Lits Float := ⟨Gen.fft8_c0, Gen.rfft8_c0, Gen.dft3_c0⟩
+
+/-- `fft(const arr_real&)` -/
+def fftr18 (x : Array Float) : Array (Cx Float) := Fft.fftR lits18 x.size x
+/-- `fft(const arr_cmplx&)` -/
+def fftc18 (x : Array (Cx Float)) : Array (Cx Float) := Fft.fftC lits18 x.size x
+/-- `ifft(const arr_cmplx&)` -/
+def ifft18 (x : Array (Cx Float)) : Array (Cx Float) := Fft.ifftWith (Fft.fftC lits18 x.size) x.size x
+
+def takeArrsF : Nat → List String → Option (List (Array Float) × List String)
+  | 0, r => some ([], r)
+  | n + 1, r => do
+    let (x, r) ← takeFloats r
+    let (xs, r) ← takeArrsF n r
+    pure (x :: xs, r)
+
+def takeNats : Nat → List String → Option (List Nat × List String)
+  | 0, r => some ([], r)
+  | n + 1, r => do
+    let v ← (← r.head?).toNat?
+    let (vs, r) ← takeNats n r.tail
+    pure (v :: vs, r)
+
+/-- run the calls of one detector case: `fpc` = frames per call -/
+def runDet (s : DetState Float) (x : Array (Cx Float)) : List Nat → Nat → List String → String
+  | [], _, acc => String.intercalate " " acc.reverse
+  | fc :: rest, pos, acc =>
+    let len := fc * s.frameLen
+    match detProcess fftc18 ifft18 s (x.extract pos (pos + len)) with
+    | .error _ => String.intercalate " " ("ERR" :: acc).reverse
+    | .ok (s', none) => runDet s' x rest (pos + len) ("0" :: acc)
+    | .ok (s', some r) =>
+      runDet s' x rest (pos + len) (("1 " ++ toString r.offset ++ " " ++ fmtF r.score ++ " " ++ fmtCxArr r.preamble) :: acc)
+
+def fmtGcc (fs : Int) (r : Float × Array (Cx Float)) : String :=
+  toString (MathFns.argmax MathFns.clt r.2.toList) ++ " " ++ fmtF (r.1 * Float.ofInt fs)
 
 def h18 : List String → Option String
+  | "dsR" :: d :: rest => do
+    let d ← parseI d
+    let (x, _) ← takeFloats rest
+    some (fmtFloatArr (MathFns.delayseq 0.0 x d))
+  | "dsC" :: d :: rest => do
+    let d ← parseI d
+    let (x, _) ← takeCxs rest
+    some (fmtCxArr (MathFns.delayseq ⟨0.0, 0.0⟩ x d))
+  | "plR" :: idx :: cyc :: rest => do
+    let idx ← idx.toNat?
+    let (x, _) ← takeFloats rest
+    some (fmtF (peaklocR x idx (cyc == "1")))
+  | "plC" :: idx :: cyc :: rest => do
+    let idx ← idx.toNat?
+    let (x, _) ← takeCxs rest
+    some (fmtF (peaklocC x idx (cyc == "1")))
+  | "fdR" :: rest => do
+    let (a, rest) ← takeFloats rest
+    let (b, _) ← takeFloats rest
+    some (toString (finddelayR fftr18 ifft18 a b))
+  | "fdC" :: rest => do
+    let (a, rest) ← takeCxs rest
+    let (b, _) ← takeCxs rest
+    some (toString (finddelayC fftc18 ifft18 a b))
+  | "gcc" :: fs :: rest => do
+    let fs ← parseI fs
+    let (sig, rest) ← takeFloats rest
+    let (ref, _) ← takeFloats rest
+    match gccphat fftr18 ifft18 sig ref fs with
+    | .error _ => some "ERR"
+    | .ok r => some (fmtGcc fs r)
+  | "gccm" :: fs :: nch :: rest => do
+    let fs ← parseI fs
+    let nch ← nch.toNat?
+    let (sigs, rest) ← takeArrsF nch rest
+    let (ref, _) ← takeFloats rest
+    match gccphatMulti fftr18 ifft18 sigs ref fs with
+    | .error _ => some "ERR"
+    | .ok rs => some (String.intercalate " " (rs.map (fmtGcc fs)))
+  | "det" :: thr :: rest => do
+    let thr ← parseF thr
+    let (h, rest) ← takeCxs rest
+    let nc ← (← rest.head?).toNat?
+    let (fpc, rest) ← takeNats nc rest.tail
+    let (x, _) ← takeCxs rest
+    let s0 := detInit fftc18 h thr
+    some (toString s0.frameLen ++ " " ++ runDet s0 x fpc 0 [])
   | _ => none
 
 end Dsp.Driver
